@@ -5,8 +5,8 @@ spec/Threads.tla (Model at the granularity of the code's synchronisation points;
 interleavings of 2 (3) threads, checks Model => Contract, emits every edge),
 harness/thr_driver.cpp (real threads under a deterministic cooperative scheduler driven through
 the custom-lock seam, the RLBOX_VERIF_EVENT hook and yields in guest code / callbacks),
-harness/lock_driver.cpp (the library's OWN lock macros: a conflicting try-lock from a helper thread
-must fail at every reported access to the live list),
+harness/lock_driver.cpp (the library's OWN lock macros: at the reported accesses to the live list a helper
+thread that needs the list exclusively must not get through),
 spec/Trace_Threads.tla (TLC folds the Contract over the scheduler's step log)."""
 import os
 import random
@@ -98,13 +98,15 @@ def run(tier):
     for nm, flags in (("lock_driver", []), ("lock_driver_noop", ["-DBK_NOOP"])):
         d = vp.build(nm, ["lock_driver.cpp"], flags)
         tl = os.path.join(wd, nm + ".ndjson")
-        pl = vp.run(["timeout", "120", d, tl], timeout=200)
+        pl = vp.run(["timeout", "300", d, tl], timeout=400)
         lev = vp.read_ndjson(tl)
+        if pl.returncode == 3:
+            raise vp.Broken("%s: the exclusion probe cannot get through even when nothing is locked (overloaded machine?)" % nm)
         if pl.returncode != 0:
             # plain sequential use of three sandboxes ended abnormally in the real code: an observation
             chk.violation("%s: sequential create / use / destroy of three sandboxes ended abnormally (rc=%d): %s" %
                           (nm, pl.returncode, pl.stderr[-200:].strip()), {"rc": pl.returncode, "events": lev[-10:]})
-        elif len([e for e in lev if e["e"] == "lockprobe"]) < 18:
+        elif len([e for e in lev if e["e"] == "lockprobe"]) < 10:
             raise vp.Broken("%s: %d events only" % (nm, len(lev)))
         nprobe += len(lev)
         events += lev
